@@ -152,6 +152,12 @@ Section Step.
     rewrite IH by lia. destruct l as [|b l]; [cbn in H; lia | reflexivity].
   Qed.
 
+  Lemma nth_error_skipn {A} t (l : list A) u : nth_error (skipn t l) u = nth_error l (t + u).
+  Proof.
+    revert l; induction t as [|t IH]; intros l; [reflexivity|].
+    destruct l as [|a l]; [cbn; destruct u; reflexivity | cbn; apply IH].
+  Qed.
+
   Lemma skipn_nil_iff {A} t (l : list A) : skipn t l = [] <-> (length l <= t)%nat.
   Proof.
     revert l; induction t as [|t IH]; intros [|a l]; cbn; split; intro H; try reflexivity; try lia; try discriminate.
@@ -214,7 +220,7 @@ Section Step.
       assert (S2h : Stored ix2 h) by apply store_stored_h.
       destruct (ancs_nth _ _ _ _ A1) as [LenN NthN]. fold Nn in LenN, NthN.
       assert (NumN : forall b, In b Nn -> h_num new2 <= h_num b <= h_num h /\ h_num b < two63).
-      { intros b Ib. exact (ancs_nums _ _ _ _ _ _ _ WF2 Hh A1 Ib). }
+      { intros b Ib. eapply ancs_nums; eauto. }
       assert (InNew2 : In new2 Nn).
       { apply (nth_error_In Nn J). rewrite NthN by lia. exact A1. }
       pose proof (main_low _ _ _ _ _ WF1 Hold M1) as ML.
@@ -247,7 +253,8 @@ Section Step.
           rewrite nth_anc_add, A1. cbn [EthChain.nth_anc]. rewrite A2. rewrite nth_error_skipn.
           destruct (nth_error L t) as [q|] eqn:Eq.
           + destruct (main_num _ _ _ _ _ WF1 Hold M1 _ _ Eq) as [Q1 Q2].
-            rewrite store_anc by (try assumption; lia).
+            destruct (NumN _ InNew2) as [[_ Qn] _].
+            unfold ix2. rewrite store_anc by (try assumption; lia).
             rewrite <- (M1 (t + (i - S J))%nat). rewrite nth_anc_add, M1, Eq. reflexivity.
           + symmetry. apply nth_error_None. apply nth_error_None in Eq. lia. }
       split; [|exact LowEq].
@@ -267,12 +274,12 @@ Section Step.
         destruct (store_inv_stored _ _ _ Sa) as [->|Sa1].
         + pose proof (main_low _ _ _ _ _ WF2 Hh M2) as ML2. rewrite LowEq in ML2.
           assert (Len2 : (2 <= length L')%nat) by lia.
-          pose proof (M2 1%nat) as Q. cbn in Q.
+          pose proof (M2 1%nat) as Q. cbn [EthChain.nth_anc] in Q.
           destruct (parent_of ix2 h); [discriminate|].
           symmetry in Q. apply nth_error_None in Q. lia.
         + pose proof (inv_closure _ _ _ _ _ _ I1 a Sa1 Ha) as C. fold ix1 in C.
           unfold parent_of in *. destruct (iget _ ix1) as [q|] eqn:Eq; [|congruence].
-          rewrite (store_mono ix1 h Hnoalias _ _ Eq). discriminate.
+          unfold ix2. rewrite (store_mono ix1 h Hnoalias _ _ Eq). discriminate.
       - (* inv_rmain *) intros a Sa Ha. rewrite LowEq in Ha. unfold rm2, rset, rget. rewrite rget_rset.
         destruct (store_inv_stored _ _ _ Sa) as [->|Sa1].
         + rewrite hkey_eqb_refl. reflexivity.
@@ -284,4 +291,146 @@ Section Step.
       - (* inv_dead *) rewrite BotEq. apply deadpath_store; [exact (inv_dead _ _ _ _ _ _ I1) | exact Hdead].
     Qed.
   End Rebuild.
+
+  (** * The consensus states after the keeper's write and the re-pointing *)
+  Lemma cons_conds (c1 : cmap) (h : header) (Nn l : list header) :
+    NoDup (map h_num Nn) -> NoDup (map h_num l) -> In h Nn ->
+    (forall a, In a l -> In a Nn) -> (forall a, In a Nn -> a = h \/ In a l) ->
+    NoDup (map fst c1) ->
+    let c' := cset (r0, h_num h) (cstate_of h) (fold_left (setc r0) l c1) in
+    (forall a, In a Nn -> cget (r0, h_num a) c' = Some (cstate_of a)) /\
+    (forall r k, (forall a, In a Nn -> k <> h_num a) -> cget (r, k) c' = cget (r, k) c1) /\
+    (forall r k c, cget (r, k) c' = Some c -> (r = r0 /\ exists a, In a Nn /\ k = h_num a) \/ cget (r, k) c1 = Some c) /\
+    NoDup (map fst c').
+  Proof.
+    intros NDN NDl Ih Sub Sup ND1 c'. unfold c', cset, cget. repeat split.
+    - intros a Ia. rewrite cget_cset. destruct (ckey_eqb_spec (r0, h_num a) (r0, h_num h)) as [K|NK].
+      + assert (E : h_num a = h_num h) by congruence.
+        assert (a = h) as ->; [|reflexivity].
+        clear -NDN Ia Ih E. induction Nn as [|x N IH]; [contradiction|]. cbn in NDN. inversion NDN as [|? ? NI ND']; subst.
+        destruct Ia as [->|Ia], Ih as [->|Ih]; try reflexivity.
+        * exfalso. apply NI. rewrite E. apply in_map. exact Ih.
+        * exfalso. apply NI. rewrite <- E. apply in_map. exact Ia.
+        * apply IH; assumption.
+      + destruct (Sup a Ia) as [->|Il]; [congruence|]. apply fold_setc_in; assumption.
+    - intros r k N. rewrite cget_cset. destruct (ckey_eqb_spec (r, k) (r0, h_num h)) as [K|NK].
+      + exfalso. apply (N h Ih). congruence.
+      + apply fold_setc_other. intros a Ia E. apply (N a (Sub a Ia)). congruence.
+    - intros r k c E. rewrite cget_cset in E. destruct (ckey_eqb_spec (r, k) (r0, h_num h)) as [K|NK].
+      + left. inversion K; subst. split; [reflexivity|]. exists h. split; [exact Ih | reflexivity].
+      + destruct (fold_setc_keys _ _ _ _ _ E) as [E1|[a [Ia K]]]; [right; exact E1|].
+        left. inversion K; subst. split; [reflexivity|]. exists a. split; [apply Sub; exact Ia | reflexivity].
+    - apply (mset_nodup ckey_eqb ckey_eqb_spec). apply fold_setc_nodup. exact ND1.
+  Qed.
+
+  (** * A successful run of the (repaired) RestrictChain *)
+  Section Restrict.
+    Variable s1 : state.
+    Variable L D : list header.
+    Variable h : header.
+    Hypothesis I1 : Inv s1 L D.
+    Hypothesis Wh : wf_hdr h.
+    Hypothesis Hfresh : forall a, Stored (idx s1) a -> h_num a = h_num h ->
+                                  to_hash (h_root a) = to_hash (h_root h) -> key a = key h.
+    Hypothesis Hnoalias : forall a, iget (key h) (idx s1) = Some a -> a = h.
+    Let old := head s1.
+    Let ix1 := idx s1.
+    Let ix2 := iset (key h) h ix1.
+    Let s2 := store_header hash s1 h.
+
+    (** the main-chain header the [si > ti] branch starts from *)
+    Lemma restrict_current y i0 :
+      h_num h < h_num old -> nth_error L i0 = Some y -> h_num y = h_num h ->
+      cget (h_rev h, h_num h) (cons s2) = Some (cstate_of y) /\
+      rget (to_hash (h_root y), h_num h) (rmain s2) = Some (key y) /\
+      iget (key y) (idx s2) = Some y.
+    Proof.
+      intros Lt Ey Ny. destruct Wh as [Hrev [Hh Hgl]].
+      pose proof (inv_wf _ _ _ _ _ _ I1) as WF1. pose proof (inv_main _ _ _ _ _ _ I1) as M1.
+      destruct (inv_head_wf _ _ _ _ _ _ I1) as [_ [Hold _]].
+      assert (Iy : In y L) by (eapply nth_error_In; exact Ey).
+      pose proof (main_stored _ _ _ _ _ WF1 Hold M1 (inv_head _ _ _ _ _ _ I1) _ Iy) as Sy.
+      destruct (main_in_range _ _ _ _ _ WF1 Hold M1 _ Iy) as [[Ly _] _].
+      cbn [s2 store_header cons rmain idx]. change (hash h, h_num h) with (key h). rewrite Hrev. split.
+      - rewrite <- Ny. exact (inv_cmain _ _ _ _ _ _ I1 _ Iy).
+      - assert (Ky : key y = key h -> y = h).
+        { intro K. apply Hnoalias. rewrite <- K. exact Sy. }
+        split.
+        + unfold rset, rget. rewrite rget_rset.
+          destruct (hkey_eqb_spec (to_hash (h_root y), h_num h) (to_hash (h_root h), h_num h)) as [K|_].
+          * inversion K as [Kr]. rewrite (Hfresh y Sy Ny Kr). reflexivity.
+          * rewrite <- Ny. exact (inv_rmain _ _ _ _ _ _ I1 y Sy Ly).
+        + rewrite iget_store. destruct (hkey_eqb_spec (key y) (key h)) as [K|_]; [rewrite (Ky K); reflexivity | exact Sy].
+    Qed.
+
+    Lemma restrict_ok_shape c3 :
+      restrict_chain hash s2 old h = Ok c3 ->
+      exists J m new2 y,
+        nth_anc ix2 h J = Some new2 /\ nth_error L m = Some y /\ h_num new2 = h_num y /\
+        h_parent y = h_parent new2 /\ c3 = fold_left (setc r0) (rev (ancs ix2 h J)) (cons s1).
+    Proof.
+      intro R. destruct Wh as [Hrev [Hh Hgl]].
+      pose proof (inv_wf _ _ _ _ _ _ I1) as WF1. fold ix1 in WF1.
+      assert (WF2 : idx_wf ix2) by (apply store_wf; [exact WF1 | exact Wh]).
+      pose proof (inv_main _ _ _ _ _ _ I1) as M1. fold ix1 old in M1.
+      destruct (inv_head_wf _ _ _ _ _ _ I1) as [_ [Hold _]]. fold old in Hold.
+      assert (S2h : Stored ix2 h) by apply store_stored_h.
+      assert (H64 : h_num h < two64) by (pose proof two63_lt_two64; lia).
+      unfold restrict_chain, restrict_chain_gen in R.
+      (* finishing argument shared by both branches *)
+      assert (Fin : forall J new2 ti2 acc2,
+                 nth_anc ix2 h J = Some new2 -> ti2 = h_num new2 -> acc2 = push hash ix2 h J [] ->
+                 repoint ix2 (h_rev h) ti2 (hash new2 :: acc2) (cons s1) = Ok c3 ->
+                 c3 = fold_left (setc r0) (rev (ancs ix2 h J)) (cons s1)).
+      { intros J new2 ti2 acc2 A -> -> Rp. rewrite (push_ancs hash ix2 h J [] new2 A), app_nil_r in Rp.
+        rewrite Hrev in Rp. rewrite repoint_spec in Rp.
+        - inversion Rp; reflexivity.
+        - intros a Ia. apply in_rev in Ia. destruct (ancs_in _ _ _ _ Ia) as [i [_ Ei]].
+          split; [exact (nth_anc_stored _ _ _ _ _ _ WF2 Hh S2h Ei) | exact (proj2 (nth_anc_num _ _ _ _ _ _ WF2 Hh Ei))].
+        - apply (ancs_asc ix2 J h new2 WF2 Hh A). }
+      destruct (N.ltb_spec (h_num h) (h_num old)) as [Lt|Ge].
+      - (* the head is higher: start from the main-chain header at the new header's height *)
+        destruct (cget (h_rev h, h_num h) (cons s2)) as [c|] eqn:E1; [|discriminate].
+        assert (LowH : low old L <= h_num h).
+        { cbn [s2 store_header cons] in E1. rewrite Hrev in E1. exact (proj2 (inv_cdom _ _ _ _ _ _ I1 _ _ _ E1)). }
+        destruct (main_at _ _ _ _ _ WF1 Hold M1 (h_num h)) as [y [Ey Ny]]; [lia|].
+        set (i0 := N.to_nat (h_num old - h_num h)) in *.
+        destruct (restrict_current y i0 Lt Ey Ny) as [C1 [C2 C3]].
+        rewrite C1 in E1. inversion E1; subst c. cbn [c_root cstate_of] in R.
+        rewrite C2, C3 in R. cbn [obind fst snd] in R.
+        cbn [walk1] in R. rewrite N.ltb_irrefl in R. cbn [obind] in R.
+        destruct (walk2 hash (S (length (idx s2))) (idx s2) y h (h_num h) []) as [[[new2 ti2] acc2]| |] eqn:W2; try discriminate.
+        cbn [obind] in R.
+        destruct (walk2_sound hash r0 ix2 _ _ _ _ _ _ _ _ WF2 Hh eq_refl W2) as [j [cur2 [_ [A [B [C [T P]]]]]]].
+        exists j, (i0 + j)%nat, new2, cur2.
+        split; [exact A|]. split.
+        + rewrite <- M1, nth_anc_add, M1, Ey. unfold ix2 in B. rewrite store_anc in B by (try assumption; lia). exact B.
+        + destruct (nth_anc_num _ _ _ _ _ _ WF2 Hh A) as [Q1 _].
+          assert (Hy : h_num y < two63) by lia.
+          destruct (nth_anc_num _ _ _ _ _ _ WF2 Hy B) as [Q2 _].
+          split; [lia|]. split; [exact C|]. exact (Fin j new2 ti2 acc2 A T P R).
+      - (* the head is not higher: bring the new branch down to its height first *)
+        cbn [obind fst snd] in R.
+        destruct (walk1 hash (S (length (idx s2))) (idx s2) h (h_num h) (h_num old) []) as [[[new1 ti1] acc1]| |] eqn:W1; try discriminate.
+        cbn [obind] in R.
+        destruct (walk1_sound ix2 _ _ _ _ _ _ H64 W1) as [a1 [A1 R1]].
+        set (d := N.to_nat (h_num h - h_num old)) in *.
+        inversion R1; subst new1 ti1 acc1. clear R1.
+        destruct (nth_anc_num _ _ _ _ _ _ WF2 Hh A1) as [Q1 Ha1].
+        assert (T1 : h_num h - N.of_nat d = h_num a1) by (unfold d in *; lia).
+        rewrite T1 in R.
+        destruct (walk2 hash (S (length (idx s2))) (idx s2) old a1 (h_num a1) (push hash ix2 h d [])) as [[[new2 ti2] acc2]| |] eqn:W2; try discriminate.
+        cbn [obind] in R.
+        destruct (walk2_sound hash r0 ix2 _ _ _ _ _ _ _ _ WF2 Ha1 eq_refl W2) as [j [cur2 [_ [A [B [C [T P]]]]]]].
+        exists (d + j)%nat, j, new2, cur2.
+        assert (AJ : nth_anc ix2 h (d + j) = Some new2) by (rewrite nth_anc_add, A1; exact A).
+        split; [exact AJ|]. split.
+        + rewrite <- M1. unfold ix2 in B. rewrite store_anc in B by (try assumption; lia). exact B.
+        + destruct (nth_anc_num _ _ _ _ _ _ WF2 Ha1 A) as [Q2 _].
+          destruct (nth_anc_num _ _ _ _ _ _ WF2 Hold B) as [Q3 _].
+          split; [unfold d in *; lia|]. split; [exact C|].
+          apply (Fin (d + j)%nat new2 ti2 acc2 AJ T); [|exact R].
+          rewrite P. symmetry. apply push_add. exact A1.
+    Qed.
+  End Restrict.
 End Step.
